@@ -2,11 +2,11 @@
 //! (a) dynamic noise-taint over coupled executions of the returned relation;
 //! (b) label-level invariant monitored on every simulated compile.
 use crate::c01;
-use crate::engine::{DrawMode, DrawPlan, ResultSet};
+use simcommon::engine::{DrawMode, DrawPlan, ResultSet};
 use crate::oracle::*;
 use crate::owners;
 use crate::pipeline;
-use crate::scenario::{Scenario, TableSpec};
+use simcommon::scenario::{Scenario, TableSpec};
 use qrlew::{
     builder::With,
     privacy_unit_tracking::Strategy,
@@ -24,7 +24,7 @@ fn column_multiset(rs: &ResultSet, i: usize) -> Vec<String> {
         .rows
         .iter()
         .map(|r| match &r[i] {
-            crate::scenario::Cell::Float(f) => format!("f:{:?}", f),
+            simcommon::scenario::Cell::Float(f) => format!("f:{:?}", f),
             other => other.key(),
         })
         .collect();
